@@ -379,8 +379,8 @@ theorem inv_stepRel {c : Cfg} (hc : Proved c) {s s' : State} (hI : Inv s) (t : T
       split <;> rfl
     · simp only [relKey, htk, hhold, if_true, setTh]
       split
-      · next hf => simp [hf]
-      · next hf => simp [hf]
+      · simp
+      · simp
     · simp only [relKey, htk, hhold, if_true, setTh]
       funext u
       split <;> (simp only [upd_apply]; split <;> simp_all)
